@@ -1,6 +1,5 @@
 import SJ.Props.C15
-#print axioms SJ.Props.C15.c15_keys_partial
-#print axioms SJ.Props.C15.c15_some_key_disagrees
+#print axioms SJ.Props.C15.c15_keys
 #print axioms SJ.Props.C15.c15_key_dispatch
 #print axioms SJ.Props.C15.c15_success_iff
 #print axioms SJ.Props.C15.c15_error_iff
